@@ -1,0 +1,85 @@
+//go:build verif
+
+package gmars
+
+import "fmt"
+
+// VerifInvariants walks the internal state of a simulator created by this
+// package and returns a description of every structural invariant that does
+// not hold. It is meant to be called at quiescent points (between API calls)
+// by external runtime monitors; it never modifies the simulator.
+func VerifInvariants(sim Simulator) []string {
+	s, ok := sim.(*reportSim)
+	if !ok {
+		return []string{"not a *reportSim"}
+	}
+	var out []string
+	bad := func(format string, args ...interface{}) {
+		if len(out) < 16 {
+			out = append(out, fmt.Sprintf(format, args...))
+		}
+	}
+
+	if Address(len(s.mem)) != s.m {
+		bad("len(mem)=%d != m=%d", len(s.mem), s.m)
+	}
+	for i, c := range s.mem {
+		if c.A >= s.m || c.B >= s.m {
+			bad("mem[%d] field out of range: %v", i, c)
+		}
+		if c.Op > NOP || c.OpMode > I || c.AMode > B_INCREMENT || c.BMode > B_INCREMENT {
+			bad("mem[%d] enum out of range: op=%d opmode=%d amode=%d bmode=%d", i, c.Op, c.OpMode, c.AMode, c.BMode)
+		}
+	}
+
+	if s.warriorCount != len(s.warriors) {
+		bad("warriorCount=%d != len(warriors)=%d", s.warriorCount, len(s.warriors))
+	}
+	alive := 0
+	for i, w := range s.warriors {
+		if w.index != i {
+			bad("warrior %d has index %d", i, w.index)
+		}
+		if w.state > WarriorDead {
+			bad("warrior %d state %d out of range", i, w.state)
+		}
+		if w.state == WarriorAlive {
+			alive++
+			if w.pq == nil || w.pq.length == 0 {
+				bad("warrior %d alive without tasks", i)
+			}
+		} else if w.pq != nil && w.pq.length != 0 {
+			bad("warrior %d not alive (state %d) but holds %d tasks", i, w.state, w.pq.length)
+		}
+		if q := w.pq; q != nil {
+			if q.size != s.maxProcs || Address(len(q.queue)) != q.size {
+				bad("warrior %d queue size=%d len=%d maxProcs=%d", i, q.size, len(q.queue), s.maxProcs)
+			}
+			if q.length > q.size {
+				bad("warrior %d queue length %d > size %d", i, q.length, q.size)
+			}
+			if q.size > 0 {
+				if q.start >= q.size || q.end >= q.size {
+					bad("warrior %d queue cursor out of range start=%d end=%d size=%d", i, q.start, q.end, q.size)
+				} else if q.end != (q.start+q.length)%q.size {
+					bad("warrior %d queue incoherent start=%d length=%d end=%d size=%d", i, q.start, q.length, q.end, q.size)
+				}
+				for n := Address(0); n < q.length && n < q.size; n++ {
+					if pc := q.queue[(q.start+n)%q.size]; pc >= s.m {
+						bad("warrior %d queued pc %d >= m", i, pc)
+					}
+				}
+			}
+		}
+	}
+	if alive != s.warriorLivingCount {
+		bad("warriorLivingCount=%d but %d warriors alive", s.warriorLivingCount, alive)
+	}
+	if s.warriorIndex != 0 {
+		bad("warriorIndex=%d at quiescent point", s.warriorIndex)
+	}
+	if s.cycleCount > s.maxCycles {
+		bad("cycleCount=%d > maxCycles=%d", s.cycleCount, s.maxCycles)
+	}
+	return out
+}
